@@ -40,12 +40,12 @@ layout('h2.stream.H2Stream', {
     'stream_id': 'int',
     'max_outbound_frame_size': 'optint',
     'max_inbound_frame_size': 'int',
-    'request_method': 'optbytes',
+    'request_method': 'opthbytes',
     'outbound_flow_control_window': 'int',
     '_inbound_window_manager': 'obj:h2.windows.WindowManager',
     '_expected_content_length': 'optint',
     '_actual_content_length': 'int',
-    '_authority': 'optbytes',
+    '_authority': 'opthbytes',
     'config': 'shared',
 })
 
